@@ -2,6 +2,7 @@
 use vkit::report::{Args, Report};
 
 mod c02;
+mod c03;
 mod c06;
 mod c09;
 mod c13;
@@ -16,6 +17,7 @@ fn main() {
         "c13" => c13::run(&args, &mut rep),
         "smoke" => smoke::run(&args, &mut rep),
         "c02" => c02::run(&args, &mut rep),
+        "c03" => c03::run(&args, &mut rep),
         "c06" => c06::run(&args, &mut rep),
         "c09" => c09::run(&args, &mut rep),
         other => {
